@@ -259,7 +259,15 @@ def ic_args(case, labels, container="list"):
         else:
             kw["initial_infecteds"] = L
     if case.get("R0"):
-        kw["initial_recovereds"] = [labels[i] for i in case["R0"]]
+        R = [labels[i] for i in case["R0"]]
+        rc = case.get("r0_container", "list")
+        if rc == "tuple":
+            R = tuple(R)
+        elif rc == "set":
+            R = set(R)
+        elif rc == "dictkeys":
+            R = {x: 1 for x in R}.keys()
+        kw["initial_recovereds"] = R
     return kw
 
 
